@@ -92,6 +92,9 @@ function main() {
         if (op.op === 'init' || op.op === 'new') mod.initialize();
         else if (op.op === 'parse') r.parses.push(runParse(mod, op.feed, j.budget || 0));
       }
+    } else if (j.k === 'matrix' && !mod.StateActionArray) {
+      // the table is a private detail of the generated file: a tree may name it differently
+      r.matrix = []; r.matrix_missing = true;
     } else if (j.k === 'matrix') {
       r.matrix = [];
       for (let s = 0; s < j.ns; s++) {
